@@ -76,7 +76,12 @@ Definition abs_of (comps : list str) : str := SL :: join_sl comps.
 Definition q_comps (q : query) : list str :=
   norm_comps true (split_sl (os_full (q_cwd q) (q_path q))).
 
-Definition phys (root : node) (comps : list str) : option (list str) := walk FUEL root [] comps.
+(* the leading empty component is the one str.split('/') yields for the leading slash *)
+Definition phys (root : node) (comps : list str) : option (list str) := walk FUEL root [] ([] :: comps).
+
+Definition slashfree (c : str) : bool := forallb (fun x => negb (is_sl x)) c.
+Definition cleanb (c : str) : bool :=
+  slashfree c && negb (str_eqb c []) && negb (str_eqb c s_dot) && negb (str_eqb c s_dotdot).
 
 Definition has_cfg (root : node) (comps : list str) : bool :=
   match phys root (comps ++ [s_dotsignac; s_config]) with
@@ -146,10 +151,15 @@ Definition optpath_eqb (a b : option (list str)) : bool :=
 Definition dslash (p : str) : bool :=
   match p with a :: b :: _ => is_sl a && is_sl b | _ => false end.
 
-(* the lexical reading of the query (abspath) and the kernel's reading denote the same place *)
+(* the lexical reading of the query (abspath) and the kernel's reading denote the same place; the
+   string-level normalisation of the model and the component-level one of this oracle agree on the
+   query (validated here per query instead of proved once for every dirty input) *)
 Definition regular (root : node) (q : query) : bool :=
   nonempty (q_path q) && negb (dslash (q_path q))
-  && optpath_eqb (os_resolve root (q_cwd q) (q_path q)) (phys root (q_comps q)).
+  && optpath_eqb (os_resolve root (q_cwd q) (q_path q)) (phys root (q_comps q))
+  && forallb cleanb (q_comps q)
+  && str_eqb (abspath (q_cwd q) (q_path q)) (abs_of (q_comps q))
+  && str_eqb (cfgfn (q_cwd q) (q_path q)) (abs_of (q_comps q ++ [s_dotsignac; s_config])).
 
 (* the only symbolic links of the property's quantifier are symlinked job directories *)
 Fixpoint links_ok (this_is_ws : bool) (n : node) : bool :=
@@ -172,7 +182,10 @@ Definition pre_q (base : str) (tree : node) (q : query) : bool :=
 
 Definition expected (root : node) (q : query) : option qres :=
   let comps := q_comps q in
-  let ex := match phys root comps with Some _ => true | None => false end in
+  let ex := match phys root comps with
+            | Some ph => match get root ph with Some _ => true | None => false end
+            | None => false
+            end in
   match q_kind q with
   | QProject true =>
       Some (if ex then match nearest root (rev comps) with
